@@ -73,12 +73,12 @@ package sync
 //@ func (*Syncer).setLocalHead(s, ctx, netHead)
 //@   props C15
 //@   requires [C15,C03] verified-target: verified(netHead)
-//@   modifies AP_set, AP_val_Hdr, elems(H), EH_Int, headerRange.headers, headerRange.start, ranges.ranges, $now
+//@   modifies AP_set, AP_val_Hdr, elems(H), EH_Int, headerRange.headers, headerRange.start, ranges.ranges, $now, ghost:storeAppends, ghost:appendedTop, errNonAdjacent.Head, errNonAdjacent.Attempted
 
 //@ func (*Syncer).verifyBifurcating(s, ctx, subjHead, newHead)
 //@   props C15
 //@   requires verified(subjHead) && newHead.Height() > subjHead.Height()
-//@   modifies AP_set, AP_val_Hdr, elems(H), EH_Int, headerRange.headers, headerRange.start, ranges.ranges, $now, header.VerifyError.SoftFailure
+//@   modifies AP_set, AP_val_Hdr, elems(H), EH_Int, headerRange.headers, headerRange.start, ranges.ranges, $now, ghost:storeAppends, ghost:appendedTop, errNonAdjacent.Head, errNonAdjacent.Attempted, header.VerifyError.SoftFailure
 //@   ensures [C15] sound: result == nil ==> verified(newHead)
 //@   ensures [C15] refusal-reason: result != nil && asVerr(result) != nil && asVerr(result).SoftFailure ==> cur(subjHeight) + 1 >= newHead.Height()
 //@ loop 0:
@@ -112,12 +112,12 @@ package sync
 
 //@ func (*Syncer).verify(s, ctx, newHead)
 //@   props C03, C15
-//@   modifies AP_set, AP_val_Hdr, elems(H), EH_Int, headerRange.headers, headerRange.start, ranges.ranges, $now, header.VerifyError.SoftFailure
+//@   modifies AP_set, AP_val_Hdr, elems(H), EH_Int, headerRange.headers, headerRange.start, ranges.ranges, $now, ghost:storeAppends, ghost:appendedTop, errNonAdjacent.Head, errNonAdjacent.Attempted, header.VerifyError.SoftFailure
 //@   ensures [C03,C15] sound: result == nil ==> verified(newHead)
 
 //@ func (*Syncer).incomingNetworkHead(s, ctx, head)
 //@   props C03, C15
-//@   modifies AP_set, AP_val_Hdr, elems(H), EH_Int, headerRange.headers, headerRange.start, ranges.ranges, $now, header.VerifyError.SoftFailure
+//@   modifies AP_set, AP_val_Hdr, elems(H), EH_Int, headerRange.headers, headerRange.start, ranges.ranges, $now, ghost:storeAppends, ghost:appendedTop, errNonAdjacent.Head, errNonAdjacent.Attempted, header.VerifyError.SoftFailure
 //@   ensures [C03] refused-or-verified: result == nil ==> verified(head)
 
 //@ func (*syncStore).Append(s, ctx, headers)
